@@ -40,7 +40,9 @@ def cases(draw):
            "D": draw(st.integers(1, 2)), "N": draw(st.integers(4, 8)), "E": draw(st.integers(1, 2)),
            "seed": draw(st.integers(0, 2**32 - 2)), "n_jobs": 1, "verbose": False}
     return {"cfg": cfg, "k": draw(st.integers(0, 3)), "previous": draw(st.sampled_from([True, True, False])),
-            "big": draw(st.integers(0, 5)) == 0}
+            "big": draw(st.integers(0, 5)) == 0,
+            # the injected error is an ordinary Exception, or an interrupt (BaseException, as Ctrl-C during a save)
+            "interrupt": draw(st.booleans())}
 
 
 def die_at(j, fn, code_obj):
@@ -73,9 +75,10 @@ def die_at(j, fn, code_obj):
         os._exit(18)
 
 
-def raise_at(j, fn, code_obj):
-    """In-process: raise Boom at the j-th line event of code_obj. Returns 'done' if fn completed first."""
-    class Boom(Exception):
+def raise_at(j, fn, code_obj, interrupt=False):
+    """In-process: raise Boom at the j-th line event of code_obj. Returns 'done' if fn completed first. With `interrupt` the
+    error is not an `Exception` subclass (a KeyboardInterrupt-like BaseException: Ctrl-C during a save)."""
+    class Boom(BaseException if interrupt else Exception):
         pass
 
     n = [0]
@@ -216,7 +219,8 @@ def check_json(ctx: Ctx, case):
             j = 0
             while True:
                 write_state(work, state_o) if previous else (shutil.rmtree(work, ignore_errors=True))
-                done = raise_at(j, lambda: cal.create_checkpoint(work), jp.save_calibrator_state.__code__) == "done"
+                done = raise_at(j, lambda: cal.create_checkpoint(work), jp.save_calibrator_state.__code__,
+                                interrupt=bool(case.get("interrupt"))) == "done"
                 if done:
                     break
                 one = dict(case, fault={"kind": "exception", "line_event": j})
@@ -310,7 +314,8 @@ def check_sqlite(ctx: Ctx, case):
                             raise RuntimeError("child failed")
                         done = rc == 17
                     else:
-                        done = raise_at(j, lambda: sq.save_calibrator_state(work, *args), code) == "done"
+                        done = raise_at(j, lambda: sq.save_calibrator_state(work, *args), code,
+                                        interrupt=bool(case.get("interrupt"))) == "done"
                     one = dict(case, fault={"kind": mode, "line_event": j})
                     v, info = verdict_sqlite(work, tup_o, tup_n) if os.path.isdir(work) else ("raises", "no folder")
                     ctx.count(sub, one, j > 0 and not done, [f"{mode}->{v}"] + (["big-row"] if case.get("big") else []))
